@@ -15,7 +15,7 @@ import ast
 from typing import Dict, List, Optional, Set
 
 from ..model import Program, AnalysisError, ClassInfo, walk_local
-from ..report import RuleResult
+from ..report import RuleResult, guard
 from ..astutil import src, calls_in
 from ..callgraph import self_closure
 from ..evalproto import Summary, Site, Emission
@@ -327,10 +327,10 @@ def run(prog: Program, tier: str) -> List[RuleResult]:
     from .c12 import arg_symbolic
 
     # a row whose selected value is falsy is a solution like any other
-    return [ep_bound(prog), ep_gate(prog), or_form(prog), ep_neg(prog), domain_cache(prog), ep_selected(prog),
+    return [guard(lambda: ep_bound(prog)), guard(lambda: ep_gate(prog)), guard(lambda: or_form(prog)), guard(lambda: ep_neg(prog)), guard(lambda: domain_cache(prog)), guard(lambda: ep_selected(prog)),
             # predicates are atoms of the fragment: an argument expression wrapped as a literal changes which assignments satisfy the atom
-            arg_symbolic(prog),
+            guard(lambda: arg_symbolic(prog)),
             # comparisons are the other atoms: the verdict is the operator applied to the operand values of this assignment
-            cmp_apply(prog),
+            guard(lambda: cmp_apply(prog)),
             # an operand flagged false is dropped by the comparator: the flag must come from this evaluation, in condition position only
-            ep_operand(prog), _hv_truth(prog), _qc_path(prog)]
+            guard(lambda: ep_operand(prog)), guard(lambda: _hv_truth(prog)), guard(lambda: _qc_path(prog))]
